@@ -264,6 +264,17 @@ func (g *execGen) stmt(depth int, inMacro bool) []obj {
 		g.blocks++
 		return []obj{sBlock(fmt.Sprintf("b%d", g.blocks), g.stmts(depth-1, 1+g.rng.Intn(2), inMacro))}
 	case 14:
+		if g.rng.Intn(2) == 0 {
+			with := noE
+			if g.rng.Intn(2) == 0 {
+				with = obj{"k": "hash", "pairs": [][]obj{{eName("x"), g.atom()}}}
+			}
+			blocks := []obj{}
+			if g.rng.Intn(2) == 0 {
+				blocks = append(blocks, obj{"name": "eb", "body": g.stmts(depth-1, 1, true)})
+			}
+			return []obj{obj{"k": "embed", "x": eStr("emb"), "with": with, "only": g.rng.Intn(2) == 0, "blocks": blocks}}
+		}
 		return []obj{obj{"k": "do", "x": eCall("id", g.expr(1))}}
 	default:
 		return []obj{obj{"k": "comment", "d": bytesOf(" c ")}}
@@ -291,7 +302,8 @@ func init() {
 			g := &execGen{rng: rng, vars: []string{"x", "y", "z", "arr", "s", "undefined_one"}}
 			body := g.stmts(1+rng.Intn(depth), 2+rng.Intn(4), false)
 			main := append(append([]obj{}, g.defs...), body...)
-			tpls := obj{"t": main, "inc": []obj{sText("<"), sPrint(eName("x")), sPrint(eName("y")), sSet("x", eInt(99)), sText(">")}}
+			tpls := obj{"t": main, "inc": []obj{sText("<"), sPrint(eName("x")), sPrint(eName("y")), sSet("x", eInt(99)), sText(">")},
+				"emb": []obj{sText("E["), sSet("q", eInt(1)), sBlock("eb", []obj{sText("d")}), sPrint(eName("x")), sSet("x", eInt(7)), sText("]")}}
 			entry := "t"
 			if rng.Intn(4) == 0 {
 				// an inheriting entry template: overrides the program's blocks, calls parent()
